@@ -12,14 +12,18 @@ about — for each optimizer its parameter objects as *positions* in the current
 the registered networks (`x` = an object no registered network owns any more), every group's lr and
 the agent's lr attribute as exact rationals, for each shared network whether `init_dict` and
 weights equal the evaluation network's, `mut`, the index, and after an architecture mutation
-`last_mutation_attr` of every evaluation module — and diffs it with the model's prediction.  Before
+for every evaluation module (per sub-agent for the multi-agent algorithms) the applied change:
+`last_mutation_attr` AND what it did to the architecture (element-wise change of hidden / channel /
+kernel sizes, appended layers, latent dimension — i.e. the effect of the sampled arguments) — and
+diffs it with the model's prediction (module j of every evaluation network carries the change of
+module j of the policy).  Before
 a learn step the model says which registered networks the step writes; the harness reports which
 ones really moved.
 
 Oracle (the statement itself, independent of the model): optimizer parameter lists ARE the
 concatenation of the registered networks' current parameters; group lr == agent's lr attribute;
 shared networks equal their evaluation network in `init_dict` and weights right after mutation;
-critics report the policy's applied method; every agent can act; a learn round changes at least one
+critic j received the method and the architecture change of policy module j; every agent can act; a learn round changes at least one
 element of every trained module and nothing of any other agent; size, order and indices of the
 population are preserved; `mut` names the mutation that was drawn.
 """
@@ -249,28 +253,111 @@ def observe(agent, problems: list, where: str, after_mutation: bool) -> str:
     return f"idx={agent.index} mut={agent.mut} | " + " | ".join(opts) + " | " + " ".join(sh)
 
 
-def lma_line(agent, problems: list, where: str) -> str:
+def lma_line(agent, problems: list, where: str, changes: dict) -> str:
+    """per evaluation module the applied change (method and what it did to the architecture); the
+    oracle: module j (sub-agent j) of every network trained alongside the policy received the same
+    change as module j of the policy"""
     layout = net_layout(agent)
     parts, pol, rows = [], None, []
     for k, (n, r, _) in enumerate(layout):
         if r.startswith("s"):
             continue
-        l = [getattr(m, "last_mutation_attr", None) for m in mods_of(agent, n)]
+        l = changes[n]
         rows.append((n, l))
         if r == "p":
             pol = l
-        parts.append(f"{k}:" + ",".join("_" if x is None else str(x) for x in l))
-    followed = all(j >= len(pol) or l[j] == pol[j] for _, l in rows for j in range(len(l)))
-    if not followed:
-        bad = [(n, l) for n, l in rows if any(j < len(pol) and l[j] != pol[j] for j in range(len(l)))]
-        problems.append(f"{where}: policy applied {pol} but {bad[0][0]} reports {bad[0][1]} "
-                        "(a network trained alongside the policy did not receive the same architecture change)")
+        parts.append(f"{k}:" + ",".join(change_token(m, d) for m, d in l))
+    followed = True
+    for n, l in rows:
+        for j in range(min(len(l), len(pol))):
+            if l[j] != pol[j]:
+                followed = False
+                what = "method" if l[j][0] != pol[j][0] else "change"
+                problems.append(f"{where}: module {j} of the policy received {pol[j][0]} ({pol[j][1]}) but module {j} of "
+                                f"{n} received {l[j][0]} ({l[j][1]}): a network trained alongside the policy did not "
+                                f"receive the same architecture {what}")
     return " ".join(parts) + f" followed={int(followed)}"
 
 
-def applied_of(agent) -> list:
+ARCH_KEYS = {"hidden_size", "channel_size", "kernel_size", "stride_size", "latent_dim", "num_blocks", "num_layers"}
+
+
+def arch_sig(m) -> dict:
+    """the size parameters of a module's architecture, by path in its init_dict"""
+    out = {}
+
+    def walk(x, path):
+        if isinstance(x, dict):
+            for k, v in x.items():
+                if k in ARCH_KEYS:
+                    out[path + k] = v
+                elif isinstance(v, dict):
+                    walk(v, path + k + ".")
+    walk(canon(m.init_dict), "")
+    return out
+
+
+def _flat(v) -> list:
+    if isinstance(v, list):
+        r = []
+        for e in v:
+            r += _flat(e)
+        return r
+    return [v]
+
+
+def arch_delta(before: dict, after: dict) -> str:
+    """the change of the architecture in a form that can be compared between the policy and the
+    networks trained alongside it (element-wise differences, appended layers): what the mutation
+    method's sampled arguments (which layer, how many nodes / channels, kernel size …) did"""
+    parts = []
+    for k in sorted(set(before) | set(after)):
+        x, y = before.get(k), after.get(k)
+        if x == y:
+            continue
+        if isinstance(x, list) and isinstance(y, list):
+            n = min(len(x), len(y))
+            fx, fy = _flat(x[:n]), _flat(y[:n])
+            if len(fx) == len(fy) and all(isinstance(v, (int, float)) for v in fx + fy):
+                d = ".".join(f"{q - p:+g}" for p, q in zip(fx, fy))
+            else:
+                d = "?"
+            tail = ("new" + ".".join(str(v) for v in _flat(y[n:]))) if len(y) > n else ""
+            parts.append(f"{k}:len{len(y) - len(x):+d}[{d}]{tail}")
+        elif isinstance(x, (int, float)) and isinstance(y, (int, float)) and not isinstance(x, bool):
+            parts.append(f"{k}:{y - x:+g}")
+        else:
+            parts.append(f"{k}:chg")
+    return "&".join(parts) or "0"
+
+
+def eval_sigs(agent) -> dict:
+    return {n: [arch_sig(m) for m in mods_of(agent, n)] for n, r, _ in net_layout(agent) if not r.startswith("s")}
+
+
+def change_token(method, delta: str) -> str:
+    """`method~change` as the model prints it; `_` = nothing applied, nothing changed"""
+    if method is None and delta == "0":
+        return "_"
+    return f"{method}~{delta}"
+
+
+def applied_changes(agent, before: dict) -> dict:
+    """{evaluation network: [(last_mutation_attr, architecture change) per module / sub-agent]}"""
+    out = {}
+    for n, r, _ in net_layout(agent):
+        if r.startswith("s"):
+            continue
+        ms = mods_of(agent, n)
+        b = before.get(n, [])
+        out[n] = [(getattr(m, "last_mutation_attr", None),
+                   arch_delta(b[j], arch_sig(m)) if j < len(b) else "?") for j, m in enumerate(ms)]
+    return out
+
+
+def applied_of(agent, changes: dict) -> list:
     pol = [g.eval for g in agent.registry.groups if g.policy][0]
-    return [getattr(m, "last_mutation_attr", None) for m in mods_of(agent, pol)]
+    return changes[pol]
 
 
 def arch_sizes(agent) -> str:
@@ -489,6 +576,8 @@ def run_history(chk: Check, case: dict, mode: str = "repaired") -> dict:
                     before_idx = [ag.index for ag in pop]
                     before_ids = [eval_param_ids(ag) for ag in pop]
                     before_arch = [eval_archs(ag) for ag in pop]
+                    before_sig = [eval_sigs(ag) for ag in pop]
+                    changes = {}
                     before_state = [opt_state_sizes(ag) for ag in pop]
                     before_sync = [targets_in_sync(ag) for ag in pop]
                     m = Mutations(no_mutation=probs[0], architecture=probs[1], new_layer_prob=0.5, parameters=probs[2],
@@ -545,13 +634,16 @@ def run_history(chk: Check, case: dict, mode: str = "repaired") -> dict:
                                     choices.append(f"hp {name} _ _")
                                 want = name
                         else:
-                            ap = applied_of(ag)
-                            choices.append("arch " + ",".join("_" if x is None else str(x) for x in ap) + " " + arch_sizes(ag))
-                            want = str(ap[0])
-                            if ap[0] is None and rearch:
+                            changes[i] = applied_changes(ag, before_sig[i] if i < len(before_sig) else {})
+                            ap = applied_of(ag, changes[i])
+                            choices.append("arch " + ",".join(change_token(m, d) for m, d in ap) + " " + arch_sizes(ag))
+                            want = str(ap[0][0])
+                            if len({d for _, d in ap}) > 1:
+                                tags.append("arch-subagents-differ")
+                            tags.append("arch-" + ("noop" if ap[0][0] is None else str(ap[0][0]).split(".")[-1]))
+                            if ap[0][0] is None and rearch:
                                 problems.append(f"{where}: agent {i} reports that no architecture method was applied "
                                                 "but the architecture of an evaluation network changed")
-                            tags.append("arch-" + ("noop" if ap[0] is None else str(ap[0]).split(".")[-1]))
                         # ---- oracle: the agent reports the mutation it received
                         if label != want:
                             problems.append(f"{where}: agent {i} drew {kind} ({want}) but reports mut={label!r}")
@@ -562,7 +654,7 @@ def run_history(chk: Check, case: dict, mode: str = "repaired") -> dict:
                         impl.append(observe(ag, problems, f"{where}: agent {i} after {rec.kinds.get(id(ag), 'none')}", True))
                         if rec.kinds.get(id(ag)) == "arch":
                             lines.append(f"coh lma {i}")
-                            impl.append(lma_line(ag, problems, f"{where}: agent {i}"))
+                            impl.append(lma_line(ag, problems, f"{where}: agent {i}", changes[i]))
                     # ---- oracle: every agent can still act
                     for i, ag in enumerate(pop):
                         try:
@@ -724,6 +816,17 @@ def case_list(chk: Check):
                      [("TD3", "lr_critic"), ("MATD3", "lr_critic"), ("IPPO", "lr"), ("PPO", "lr"), ("DDPG", "lr_actor")]):
         cases.append({"algo": algo, "family": "vector", "share": None, "seed": rng.randrange(1 << 20), "size": 2,
                       "hps": [hp], "ops": gen_ops(rng, 2, 2, "rl_hp")})
+    # multi-agent: several architecture mutations in a row (different numpy seeds), so that the
+    # sub-agents' policies draw different arguments (layer, number of nodes) and each critic has
+    # to follow the policy of ITS sub-agent
+    for algo in ("MADDPG", "MATD3", "IPPO"):
+        for _ in range(1 if quick else 3):
+            ops = [["mutate", list(UNIT["arch"]), 1, rng.randrange(1 << 16), 1]]
+            ops += [["mutate", list(UNIT["arch"]), 0, rng.randrange(1 << 16), 1] for _ in range(2 if quick else 4)]
+            ops += [["learn", 0, rng.randrange(1 << 16)], ["select", rng.randrange(1 << 20), 1],
+                    ["mutate", list(UNIT["arch"]), 0, rng.randrange(1 << 16), 1], ["learn", 1, rng.randrange(1 << 16)]]
+            cases.append({"algo": algo, "family": "vector", "share": None, "seed": rng.randrange(1 << 20), "size": 2,
+                          "ops": ops})
     # other observation families
     fams = ["image", "dict", "discrete", "tuple"]
     extra = 5 if quick else 16
